@@ -196,10 +196,13 @@ class SubsequenceSearch:
     #         self.lbs[idx] = dtw.lb_keogh(self.query, series, **self.dists_options)
 
     def align_fast(self, k=None):
-        use_c = self.dists_options['use_c']
+        use_c = self.dists_options.get('use_c', None)
         self.dists_options['use_c'] = True
         result = self.align(k=k)
-        self.dists_options['use_c'] = use_c
+        if use_c is None:
+            del self.dists_options['use_c']
+        else:
+            self.dists_options['use_c'] = use_c
         return result
 
     def align(self, k=None):
